@@ -313,10 +313,13 @@ pub fn picks(tier: Tier, wl: Wl, pre: Pre) -> (Pick, Pick, Pick) {
         return (Pick::All, Pick::All, Pick::All);
     }
     match tier {
-        Tier::Quick => (Pick::Stride { step: 128, edge: 24 }, Pick::Stride { step: 128, edge: 24 }, Pick::Stride { step: 2048, edge: 1 }),
+        Tier::Quick => (Pick::Stride { step: 256, edge: 16 }, Pick::Stride { step: 256, edge: 16 }, Pick::Stride { step: 2048, edge: 1 }),
         Tier::Thorough => {
-            if pre == Pre::Old && wl != Wl::PwLight {
+            if pre == Pre::Old && wl == Wl::SetPw {
+                // the in-place writer: every single call is a distinct destination state
                 (Pick::All, Pick::Stride { step: 4, edge: 64 }, Pick::Stride { step: 64, edge: 8 })
+            } else if pre == Pre::Old && wl == Wl::Pw {
+                (Pick::Stride { step: 4, edge: 64 }, Pick::Stride { step: 4, edge: 64 }, Pick::Stride { step: 64, edge: 8 })
             } else {
                 (Pick::Stride { step: 16, edge: 64 }, Pick::Stride { step: 16, edge: 64 }, Pick::Stride { step: 64, edge: 8 })
             }
@@ -386,6 +389,26 @@ impl StraceSpace {
         StraceSpace { tier, fx, kill, cases }
     }
 }
+impl StraceSpace {
+    /// did the injection do what the case says?  None = yes
+    fn injection_problem(&self, c: &StCase, r: &Traced) -> Option<String> {
+        let mut machinery: Option<String> = None;
+        if r.timed_out {
+            machinery = Some("traced child timed out".into());
+        } else if self.kill {
+            if !(r.trace.killed && r.signal == Some(libc::SIGKILL) && r.outcome.is_none() && r.trace.saw_begin) {
+                machinery = Some(format!("kill did not happen as planned: killed {} signal {:?} result {:?} stderr {:?}", r.trace.killed, r.signal, r.outcome.as_ref().map(|o| o.text()), r.stderr));
+            }
+        } else {
+            let hit = r.trace.injected.iter().any(|(s, inside)| *inside && s.name == c.target.name && s.ordinal == c.target.ordinal);
+            if !hit || r.outcome.is_none() {
+                machinery = Some(format!("injection did not hit the planned call: injected {:?}, result {:?}, signal {:?}, stderr {:?}", r.trace.injected.iter().map(|(s, i)| format!("{}#{} inside={}", s.name, s.ordinal, i)).collect::<Vec<_>>(), r.outcome.as_ref().map(|o| o.text()), r.signal, r.stderr));
+            }
+        }
+        machinery
+    }
+}
+
 impl Space for StraceSpace {
     fn len(&self) -> u64 {
         self.cases.len() as u64
@@ -404,27 +427,23 @@ impl Space for StraceSpace {
         let tags = self.tags(i);
         let case = self.describe(i);
         sink.evaluations += 1;
-        let cd = CaseDir::create(&format!("st{}-{}", if self.kill { "k" } else { "e" }, i));
-        cd.prepare(&self.fx, c.wl, c.pre);
-        let r = run_traced(self.tier, c.wl, c.pre, &cd, &c.injects);
-        let d = read_dest(&cd.dest(c.wl));
-        let ls = listing(&cd.d);
-        cd.remove();
         let before = if c.pre == Pre::Old { Before::Old } else { Before::Absent };
-        // did the injection do what the case says?
-        let mut machinery: Option<String> = None;
-        if r.timed_out {
-            machinery = Some("traced child timed out".into());
-        } else if self.kill {
-            if !(r.trace.killed && r.signal == Some(libc::SIGKILL) && r.outcome.is_none() && r.trace.saw_begin) {
-                machinery = Some(format!("kill did not happen as planned: killed {} signal {:?} result {:?} stderr {:?}", r.trace.killed, r.signal, r.outcome.as_ref().map(|o| o.text()), r.stderr));
+        let mut attempt = 0;
+        let (r, d, ls, machinery) = loop {
+            attempt += 1;
+            let cd = CaseDir::create(if self.kill { "stk" } else { "ste" });
+            cd.prepare(&self.fx, c.wl, c.pre);
+            let r = run_traced(self.tier, c.wl, c.pre, &cd, &c.injects);
+            let d = read_dest(&cd.dest(c.wl));
+            let ls = listing(&cd.d);
+            cd.remove();
+            let m = self.injection_problem(c, &r);
+            // a missed injection is a machinery problem (never seen; the process is deterministic): try once more
+            if m.is_none() || attempt >= 2 {
+                break (r, d, ls, m);
             }
-        } else {
-            let hit = r.trace.injected.iter().any(|(s, inside)| *inside && s.name == c.target.name && s.ordinal == c.target.ordinal);
-            if !hit || r.outcome.is_none() {
-                machinery = Some(format!("injection did not hit the planned call: injected {:?}, result {:?}, signal {:?}, stderr {:?}", r.trace.injected.iter().map(|(s, i)| format!("{}#{} inside={}", s.name, s.ordinal, i)).collect::<Vec<_>>(), r.outcome.as_ref().map(|o| o.text()), r.signal, r.stderr));
-            }
-        }
+            sink.count("strace:retries", 1);
+        };
         if let Some(m) = machinery {
             sink.count("strace:machinery", 1);
             push(sink, Finding { clause: "harness", symptom: "injection-missed".into(), detail: m }, &tags, &case);
